@@ -476,4 +476,244 @@ theorem recvOn_walk (k : Nat) (s : Server) (conn : Nat) (pk : InPk) (b : Bool) (
             · exact ⟨h12, fun _ => c2⟩
           · exact ⟨h1', fun _ => c1⟩
 
+/-! ### the session and its record, op by op -/
+
+/-- the object registered under `cid` is `i`, and it holds the record -/
+def HoldsAt (s : Server) (cid : Str) (k : Nat) (p : Str) (i : Nat) : Prop :=
+  assocGet s.clients cid = some i ∧ Rec (getObj s i) k p
+
+theorem HoldsAt.holds {s : Server} {cid : Str} {k : Nat} {p : Str} {i : Nat} (h : HoldsAt s cid k p i) :
+    Holds s cid k p := ⟨i, h⟩
+
+theorem HoldsAt.id {s : Server} {cid : Str} {k : Nat} {p : Str} {i : Nat} (h : HoldsAt s cid k p i) (hw : WF s) :
+    (getObj s i).id = cid := (hw.clients_valid cid i (assocGet_mem _ _ _ h.1)).2
+
+theorem HoldsAt.lt {s : Server} {cid : Str} {k : Nat} {p : Str} {i : Nat} (h : HoldsAt s cid k p i) (hw : WF s) :
+    i < s.objs.length := (hw.clients_valid cid i (assocGet_mem _ _ _ h.1)).1
+
+theorem preState_keep (k : Nat) (s : Server) (j : Nat) (pk : InPk) (x : Nat) (p : Str)
+    (r : Rec (getObj s x) k p) : Rec (getObj (preState s j pk) x) k p := by
+  by_cases hx : x = j
+  · subst hx
+    rcases getObj_setObj_self_cases s x { getObj s x with sei := seiAfter (getObj s x) pk } with e | e
+    · unfold preState; rw [e]; exact r.of_infl rfl
+    · unfold preState; rw [e]; exact r
+  · rw [getObj_preState_ne s j x pk hx]; exact r
+
+theorem recvOn_holds (k : Nat) (p cid : Str) (s : Server) (conn : Nat) (pk : InPk) (b : Bool) (i : Nat) (hw : WF s)
+    (h : HoldsAt s cid k p i) (hne : ¬ EndsRecv s cid k conn pk b) : HoldsAt (recvOn s conn pk b).1 cid k p i := by
+  cases hc : assocGet s.connOf conn with
+  | none =>
+    have : recvOn s conn pk b = (s, []) := by unfold recvOn; rw [hc]
+    rw [this]; exact h
+  | some j =>
+    by_cases hopen : (getObj s j).isOpen = true
+    case neg =>
+      have : recvOn s conn pk b = (s, []) := by
+        unfold recvOn; simp only [hc]
+        rw [if_pos (by simpa using hopen)]
+      rw [this]; exact h
+    case pos =>
+      have hidi := h.id hw
+      have hE : (getObj s j).id = cid → ¬ (pkEnds k pk = true ∨
+          (connEnds s j pk b = true ∧ endsWithConn (getObj s j) pk = true)) := by
+        intro hid x
+        apply hne
+        unfold EndsRecv
+        rw [hc]
+        exact ⟨hid, hopen, x⟩
+      obtain ⟨hs, hcl⟩ := recvOn_walk k s conn pk b j ((getObj s j).id = cid) hw hc hopen
+        (fun hid => Bool.eq_false_iff.mpr (fun e => hE hid (Or.inl e)))
+        (fun hid hce => Bool.eq_false_iff.mpr (fun e => hE hid (Or.inr ⟨hce, e⟩)))
+      constructor
+      · by_cases hid : (getObj s j).id = cid
+        · rw [hcl hid]; exact h.1
+        · rw [(recvOn_frame s conn pk b j hc).clients cid (fun e => hid e.symm)]; exact h.1
+      · refine (hs i ?_).keep p (preState_keep k s j pk i p h.2)
+        by_cases hij : i = j
+        · right; rw [← hij]; exact hidi
+        · left; exact hij
+
+/-- leaving the read loop for object `j`: the session of `cid` is kept unless `j` belongs to `cid` and its session is
+    a clean one that was not taken over -/
+theorem detach_holds (k : Nat) (p cid : Str) (s : Server) (j : Nat) (b : Bool) (i : Nat)
+    (h : HoldsAt s cid k p i) (hidi : (getObj s i).id = cid)
+    (hcond : (getObj s j).id = cid → endsWithConn0 (getObj s j) = false) : HoldsAt (detach s j b).1 cid k p i := by
+  by_cases hid : (getObj s j).id = cid
+  · exact ⟨by rw [detach_clients s j b (hcond hid)]; exact h.1,
+      ((detach_sv k s j b) i (Or.inr (hcond hid))).keep p h.2⟩
+  · have hij : i ≠ j := fun e => hid (e ▸ hidi)
+    exact ⟨by rw [(detach_frame s j b).clients cid (fun e => hid e.symm)]; exact h.1,
+      ((detach_sv k s j b) i (Or.inl hij)).keep p h.2⟩
+
+theorem detachB_holds (k : Nat) (p cid : Str) (s : Server) (j : Nat) (i : Nat)
+    (h : HoldsAt s cid k p i) (hidi : (getObj s i).id = cid)
+    (hcond : (getObj s j).id = cid → endsWithConn0 (getObj s j) = false) : HoldsAt (detachB s j) cid k p i := by
+  by_cases hid : (getObj s j).id = cid
+  · exact ⟨by rw [detachB_clients s j (hcond hid)]; exact h.1,
+      ((detachB_sv k s j) i (Or.inr (hcond hid))).keep p h.2⟩
+  · have hij : i ≠ j := fun e => hid (e ▸ hidi)
+    exact ⟨by rw [(detachB_frame s j).clients cid (fun e => hid e.symm)]; exact h.1,
+      ((detachB_sv k s j) i (Or.inl hij)).keep p h.2⟩
+
+/-- objects rewritten in fields the record does not depend on, the Clients map kept -/
+theorem HoldsAt.of_surv {s s' : Server} {cid : Str} {k : Nat} {p : Str} {i : Nat} (h : HoldsAt s cid k p i)
+    (hs : Surv k s s') (hc : s'.clients = s.clients) : HoldsAt s' cid k p i :=
+  ⟨by rw [hc]; exact h.1, (hs i).keep p h.2⟩
+
+theorem step_recv_holds (k : Nat) (p cid : Str) (s : Server) (conn : Nat) (pk : InPk) (i : Nat) (hw : WF s)
+    (h : HoldsAt s cid k p i) (hne : ¬ Ends s cid k (.recv conn pk)) :
+    HoldsAt (step s (.recv conn pk)).1 cid k p i :=
+  recvOn_holds k p cid s conn pk true i hw h hne
+
+theorem peerGone_surv (k : Nat) (s : Server) (j : Nat) :
+    Surv k s (modObj s j (fun c => { c with peerGone := true })) := same_setObj_sv k s j _ (by rk_rfl)
+
+theorem step_drop_holds (k : Nat) (p cid : Str) (s : Server) (conn : Nat) (i : Nat) (hw : WF s)
+    (h : HoldsAt s cid k p i) (hne : ¬ Ends s cid k (.drop conn)) :
+    HoldsAt (step s (.drop conn)).1 cid k p i := by
+  rw [step]
+  split
+  · exact h
+  · rename_i j hc
+    split
+    · exact h
+    · rename_i hst
+      extract_lets +onlyGivenNames s1
+      have hs1 : Surv k s s1 := peerGone_surv k s j
+      have h1 : HoldsAt s1 cid k p i := h.of_surv hs1 rfl
+      split
+      rename_i s2 o hd
+      have := detach_holds k p cid s1 j true i h1 (by rw [Frame.id_all ((Frame.refl j s []).modOwn _ (by own_rfl)) i]; exact h.id hw) (by
+        intro hid
+        rw [(hs1 j).endsWithConn0]
+        refine Bool.eq_false_iff.mpr (fun e => hne ?_)
+        show EndsDrop s cid conn
+        unfold EndsDrop
+        rw [hc]
+        refine ⟨?_, by simpa using hst, e⟩
+        rw [← hid]
+        exact (Frame.id_all ((Frame.refl j s []).modOwn _ (by own_rfl)) j).symm)
+      rw [hd] at this
+      exact this
+
+theorem step_dropHold_holds (k : Nat) (p cid : Str) (s : Server) (conn : Nat) (i : Nat)
+    (h : HoldsAt s cid k p i) : HoldsAt (step s (.dropHold conn)).1 cid k p i := by
+  rw [step]
+  split
+  · exact h
+  · rename_i j hc
+    split
+    · exact h
+    · extract_lets +onlyGivenNames s1
+      have h1 : HoldsAt s1 cid k p i := h.of_surv (peerGone_surv k s j) rfl
+      split
+      rename_i s2 o hd
+      have hA := detachA_sv k s1 j true
+      have hq := (detachA_quiet s1 j true).clients
+      rw [hd] at hA hq
+      exact (h1.of_surv hA hq).of_surv ((Surv.refl k s2).upd rfl) rfl
+
+theorem step_dropHoldEarly_holds (k : Nat) (p cid : Str) (s : Server) (conn : Nat) (i : Nat)
+    (h : HoldsAt s cid k p i) : HoldsAt (step s (.dropHoldEarly conn)).1 cid k p i := by
+  rw [step]
+  split
+  · exact h
+  · rename_i j hc
+    split
+    · exact h
+    · exact (h.of_surv (s' := { s with parkedEarly := s.parkedEarly ++ [j] }) ((Surv.refl k s).upd rfl) rfl).of_surv
+        (peerGone_surv k _ j) rfl
+
+theorem step_recvCut_holds (k : Nat) (p cid : Str) (s : Server) (conn : Nat) (pk : InPk) (i : Nat) (hw : WF s)
+    (h : HoldsAt s cid k p i) (hne : ¬ Ends s cid k (.recvCut conn pk)) :
+    HoldsAt (step s (.recvCut conn pk)).1 cid k p i := by
+  rw [step]
+  split
+  · exact h
+  · rename_i j hc
+    split
+    · exact h
+    · rename_i hlive
+      have hst : (getObj s j).stopped = false ∧ (getObj s j).isOpen = true := by
+        simpa using hlive
+      have hj : j < s.objs.length := hw.conn_valid conn j (assocGet_mem _ _ _ hc)
+      extract_lets +onlyGivenNames s1
+      have hw1 : WF s1 := hw.of_good ((Good.refl s).mod j _ (by cw_rfl))
+      have h1 : HoldsAt s1 cid k p i := h.of_surv (peerGone_surv k s j) rfl
+      have e1 : getObj s1 j = { getObj s j with peerGone := true } := getObj_setObj_eq s j _ hj
+      have hc1 : assocGet s1.connOf conn = some j := hc
+      have hopen1 : (getObj s1 j).isOpen = true := by rw [e1]; exact hst.2
+      have hid1 : (getObj s1 j).id = (getObj s j).id := by rw [e1]
+      have hE : (getObj s j).id = cid → pkEnds k pk = false ∧ endsWithConn (getObj s j) pk = false := by
+        intro hid
+        have hn : ¬ (pkEnds k pk = true ∨ endsWithConn (getObj s j) pk = true) := by
+          intro x
+          apply hne
+          show EndsRecvCut s cid k conn pk
+          unfold EndsRecvCut
+          rw [hc]
+          exact ⟨hid, hst.2, hst.1, x⟩
+        exact ⟨Bool.eq_false_iff.mpr (fun e => hn (Or.inl e)), Bool.eq_false_iff.mpr (fun e => hn (Or.inr e))⟩
+      have hend1 : endsWithConn (getObj s1 j) pk = endsWithConn (getObj s j) pk := by rw [e1]; rfl
+      have hne1 : ¬ EndsRecv s1 cid k conn pk false := by
+        unfold EndsRecv
+        rw [hc1]
+        rintro ⟨hid, _, x⟩
+        have := hE (hid1.symm.trans hid)
+        rcases x with x | ⟨_, x⟩
+        · rw [this.1] at x; cases x
+        · rw [hend1, this.2] at x; cases x
+      obtain ⟨hs, _⟩ := recvOn_walk k s1 conn pk false j ((getObj s j).id = cid) hw1 hc1 hopen1
+        (fun hid => (hE hid).1) (fun hid _ => by rw [hend1]; exact (hE hid).2)
+      have h2 := recvOn_holds k p cid s1 conn pk false i hw1 h1 hne1
+      have hw2 := recvOn_wf s1 conn pk false hw1
+      have hid2 : ∀ x, (getObj (recvOn s1 conn pk false).1 x).id = (getObj s1 x).id := recvOn_id s1 conn pk false
+      split
+      rename_i s2 o h2eq
+      rw [h2eq] at h2 hs hw2 hid2
+      split
+      rename_i s3 o2 h3eq
+      show HoldsAt s3 cid k p i
+      split at h3eq
+      · cases h3eq; exact h2
+      · have := detach_holds k p cid s2 j true i h2 (h2.id hw2) (by
+          intro hid
+          have hid' : (getObj s j).id = cid := by rw [← hid1, ← hid2 j]; exact hid
+          rw [(hs j (Or.inr hid')).endsWithConn0, getObj_preState _ _ _ ((setObj_length s j _).symm ▸ hj)]
+          show endsWithConn (getObj s1 j) pk = false
+          rw [hend1]; exact (hE hid').2)
+        rw [h3eq] at this
+        exact this
+
+theorem step_inlinePublish_holds (k : Nat) (p cid : Str) (s : Server) (topic payload : Str) (retain : Bool)
+    (qos : Nat) (i : Nat) (hw : WF s) (h : HoldsAt s cid k p i)
+    (hne : ¬ Ends s cid k (.inlinePublish topic payload retain qos)) :
+    HoldsAt (step s (.inlinePublish topic payload retain qos)).1 cid k p i := by
+  rw [step]
+  show HoldsAt (receivePacket s 0 (.publish qos false retain qos topic payload 0 none)).1 cid k p i
+  have hs := receivePacket_sv k s 0 (.publish qos false retain qos topic payload 0 none) hw
+  have hq := (receivePacket_quiet s 0 (.publish qos false retain qos topic payload 0 none) rfl).clients
+  refine ⟨by rw [hq]; exact h.1, (hs i ?_).keep p (preState_keep k s 0 _ i p h.2)⟩
+  by_cases hi : i = 0
+  · right
+    show (qos == k) = false
+    have : qos ≠ k := fun e => hne ⟨by rw [← hi]; exact h.id hw, e⟩
+    simpa using this
+  · left; exact hi
+
+theorem step_inlineSubscribe_holds (k : Nat) (p cid : Str) (s : Server) (id : Nat) (filter : Str) (i : Nat)
+    (h : HoldsAt s cid k p i) : HoldsAt (step s (.inlineSubscribe id filter)).1 cid k p i := by
+  rw [step]
+  split
+  · exact h
+  · exact h.of_surv ((Surv.refl k s).upd rfl) rfl
+
+theorem step_inlineUnsubscribe_holds (k : Nat) (p cid : Str) (s : Server) (id : Nat) (filter : Str) (i : Nat)
+    (h : HoldsAt s cid k p i) : HoldsAt (step s (.inlineUnsubscribe id filter)).1 cid k p i := by
+  rw [step]
+  split
+  · exact h
+  · exact h.of_surv ((Surv.refl k s).upd rfl) rfl
+
 end Mochi.Broker
